@@ -13,7 +13,8 @@
    front (Stog/StogStable.v), permutation invariance of the overlap check and
    of the smallest distance. *)
 From FrameModel Require Import Num.QcTac Geometry.Rect Stog.CreateStog Stog.StogStable
-  Yaml.Tree Yaml.NetlistRead Yaml.NetlistWrite Yaml.NetlistRoundTrip Yaml.NetlistImage.
+  Yaml.Tree Yaml.NetlistRead Yaml.NetlistWrite Yaml.NetlistRoundTrip Yaml.NetlistImage
+  Yaml.NetlistReadForms.
 Open Scope Qc_scope.
 
 (* reading what was written gives the same modules in the same order (names,
@@ -93,3 +94,16 @@ Theorem C04_module_stog_stable : forall eps aeps rs hs fin orig,
   m_create_stog eps aeps (map NetlistDerived.reset fin) = Some (hs, fin, fin).
 Proof. exact m_create_stog_stable. Qed.
 Print Assumptions C04_module_stog_stable.
+
+(* ---- writing is repeatable within a session ---- *)
+(* Yaml/NetlistReadForms.v: a session = loads (tree / text / file name; from an
+   undefined epsilon) and writes of loaded designs.  Writing a design twice
+   gives the same document twice (whatever happened before), and - the model
+   having no state a write could change - a later load or write is not affected
+   by it: the harness checks the same of the code (the design observed before
+   and after it was written, and the two texts). *)
+Theorem C04_session_write_repeatable : forall sqrt_o yaml_load file_text ops k,
+  exists t, NetlistReadForms.run sqrt_o yaml_load file_text (ops ++ [NetlistReadForms.OpWrite k; NetlistReadForms.OpWrite k]) =
+            (NetlistReadForms.run sqrt_o yaml_load file_text ops ++ [NetlistReadForms.EvWrite t; NetlistReadForms.EvWrite t])%list.
+Proof. exact NetlistReadForms.session_write_repeatable. Qed.
+Print Assumptions C04_session_write_repeatable.
